@@ -143,8 +143,8 @@ type FakeQuicConn struct {
 	accept          chan *FakeStream
 	OpenErr         error // if set, OpenStream fails
 	Closed          int
-	StallNext       bool // the next opened stream has its writes stalled
-	Died            bool // the environment killed the connection (Die, DieExcept)
+	StallNext       bool          // the next opened stream has its writes stalled
+	Died            bool          // the environment killed the connection (Die, DieExcept)
 	pushed          []*FakeStream // streams the peer opened (server role): they die with the connection too
 }
 
